@@ -219,6 +219,8 @@ class Executor:
         if c is not None:
             return c
         ncond = z3.Not(cond)
+        self._quant_forked = True
+        smt.GROUND_FEASIBILITY[0] = bool(self.opt.get("ground_feasibility"))
         d = self._decide(2, lambda i: smt.feasible(
             self.pc + [cond if i == 0 else ncond]), note)
         if d == 0:
@@ -682,6 +684,21 @@ class Executor:
                 k = v.lens[-1]
                 self.assume(v.n == k)
             return list(v.fixed) + v.rest[:k]
+        from .lib import SymRange
+        if isinstance(v, SymRange) and "unroll_limit" in self.opt:
+            # bounded unrolling of a range of symbolic length (the contract
+            # states the bound; beyond it the path is out of reach)
+            a = v.args
+            lo, hi = (0, a[0]) if len(a) == 1 else (a[0], a[1])
+            step = a[2] if len(a) > 2 else 1
+            if not isinstance(step, int) or step <= 0:
+                raise OutOfReach("range with a symbolic or non-positive step")
+            lo_t, hi_t = lift_int(lo), lift_int(hi)
+            n = z3.If(hi_t > lo_t, (hi_t - lo_t + step - 1) / step, 0)
+            for k in range(self.opt["unroll_limit"] + 1):
+                if self.fork(n == k, f"range of {k} elements"):
+                    return [Sym(z3.simplify(lo_t + i * step), INT) for i in range(k)]
+            raise OutOfReach(f"range of more than {self.opt['unroll_limit']} elements (unroll_limit)")
         raise OutOfReach(f"iteration over {v!r} needs a loop invariant")
 
     def e_UnaryOp(self, node, frame):
@@ -830,7 +847,12 @@ class Executor:
             if cb is None:
                 a = self.eval(node.body, frame)
                 b = self.eval(node.orelse, frame)
-                return self.ite(t, a, b)
+                try:
+                    return self.ite(t, a, b)
+                except OutOfReach:
+                    # values without a common sort (str, mixed): decide the
+                    # condition on this path instead
+                    return a if self.fork(t, "ifexp") else b
         if self.truth(c, "ifexp"):
             return self.eval(node.body, frame)
         return self.eval(node.orelse, frame)
@@ -928,6 +950,13 @@ class Executor:
             return None
         if isinstance(f, ast.Name) and f.id == "super" and not node.args:
             return _Super(frame)
+        if isinstance(f, ast.Name) and f.id == "super" and len(node.args) == 2 \
+                and not frame.env.has("super"):
+            # super(Class, obj): the MRO of obj after Class
+            cls = self.eval(node.args[0], frame)
+            obj = self.eval(node.args[1], frame)
+            if isinstance(cls, type):
+                return _Super(frame, cls, obj)
         fv = self.eval(f, frame)
         if fv in (all, any) and node.args and \
                 isinstance(node.args[0], ast.GeneratorExp):
@@ -1060,13 +1089,20 @@ class Executor:
         rng = z3.And(j >= lift_int(lo), j < lift_int(hi))
         self.pc.append(rng)
         n0 = len(self.pc)
+        forked0, self._quant_forked = getattr(self, "_quant_forked", False), False
         conds = [self.truth_term(self.eval(c, f2)) for c in g.ifs]
         body = self.truth_term(self.eval(gen.elt, f2))
         facts = self.pc[n0:]
         self.pc = saved_pc
+        forked, self._quant_forked = self._quant_forked, forked0 or self._quant_forked
         if body is None:
             raise OutOfReach("non-boolean quantifier body")
         guard = z3.And(rng, *conds) if conds else rng
+        if facts and not forked:
+            # the facts are type invariants of the elements the body touches:
+            # true at every index, whatever the polarity in which the
+            # quantifier is used (antecedent of an implies(), under not)
+            self.pc.append(z3.ForAll([j], z3.Implies(guard, z3.And(*facts))))
         if is_all:
             # `facts` are type invariants of the elements touched by the body
             # (ranges of list elements of a schema): true for every index.
@@ -1317,6 +1353,13 @@ class Executor:
                              f"while line {node.lineno}"):
                 n += 1
                 if n > self.opt.get("unroll_limit", 64):
+                    if self.opt.get("unroll_is_obligation"):
+                        # the contract states how often the loop runs: a
+                        # feasible path into a further iteration refutes it
+                        self.check(f"{self.target_short}.loop{no}.ends_within[{n - 1} iterations]",
+                                   z3.BoolVal(False),
+                                   f"the loop at line {node.lineno} ends within {n - 1} iterations")
+                        raise PathEnd()
                     raise OutOfReach(f"loop at line {node.lineno} of "
                                      f"{frame.func.qualname} needs an invariant")
                 try:
@@ -1383,8 +1426,8 @@ class Executor:
 
 
 class _Super:
-    def __init__(self, frame):
-        self.frame = frame
+    def __init__(self, frame, cls=None, obj=None):
+        self.frame, self.cls, self.obj = frame, cls, obj
 
 
 class _ObjDict:
@@ -1441,9 +1484,12 @@ def _owns_yield(fnode):
 
 def super_getattr(ex, sup, name):
     frame = sup.frame
-    self_obj = frame.env.lookup(next(iter(
-        [a.arg for a in frame.func.node.args.args])))
-    cls = frame.func.cls
+    if getattr(sup, "cls", None) is not None:
+        self_obj, cls = sup.obj, sup.cls
+    else:
+        self_obj = frame.env.lookup(next(iter(
+            [a.arg for a in frame.func.node.args.args])))
+        cls = frame.func.cls
     base = self_obj.cls if isinstance(self_obj, Obj) else type(self_obj)
     owner, raw = ex.find_method(base, name, after=cls)
     if owner is None:
